@@ -57,6 +57,8 @@ pub enum Val {
     Enum(usize, u32, Arc<Vec<Val>>),
     Closure(Arc<Clo>),
     Fn(usize),
+    /// a trait object: (trait, the value it was made from)
+    Dyn(usize, Arc<Val>),
 }
 
 pub struct EnvNode {
@@ -232,6 +234,13 @@ impl<'a> Interp<'a> {
     /// (implementing types are told apart by their outermost shape: at most one impl per
     /// trait and nominal type, integer width, string, bool)
     fn impl_for(&self, t: usize, v: &Val) -> Option<usize> {
+        if let Val::Dyn(b, inner) = v {
+            // a trait implemented for the trait-object type itself, else the object's own trait: its value decides
+            if let Some(i) = self.p.impls.iter().position(|i| i.trait_ == Some(t) && i.for_ty == Ty::Dyn(*b)) {
+                return Some(i);
+            }
+            return if *b == t { self.impl_for(t, inner) } else { None };
+        }
         self.p.impls.iter().position(|i| {
             i.trait_ == Some(t)
                 && match (&i.for_ty, v) {
@@ -565,7 +574,14 @@ impl<'a> Interp<'a> {
                     Callee::Fn(f, _) | Callee::Method(f, _) => self.call_fn(*f, vs),
                     Callee::Dispatch(t, m, _) => {
                         // the implementation for the receiver's run-time type
-                        let f = vs.first().and_then(|r| self.impl_for(*t, r)).and_then(|i| self.p.impls[i].methods.get(*m).copied());
+                        let im = vs.first().and_then(|r| self.impl_for(*t, r));
+                        let f = im.and_then(|i| self.p.impls[i].methods.get(*m).copied());
+                        // an impl for a concrete type receives the value the trait object was made from
+                        if let (Some(i), Some(Val::Dyn(_, inner))) = (im, vs.first().cloned()) {
+                            if !matches!(self.p.impls[i].for_ty, Ty::Dyn(_)) {
+                                vs[0] = (*inner).clone();
+                            }
+                        }
                         match f {
                             Some(f) => self.call_fn(f, vs),
                             None => Err(Stop::Unspecified("model: no implementation for the receiver".into())),
@@ -628,7 +644,10 @@ impl<'a> Interp<'a> {
                     None => Ok(Val::Unit),
                 }
             }
-            Expr::Coerce(_, inner) => self.eval(inner, env),
+            Expr::Coerce(tr, inner) => {
+                let v = self.eval(inner, env)?;
+                Ok(Val::Dyn(*tr, Arc::new(v)))
+            }
             Expr::Go(c) => {
                 let f = self.eval(c, env)?;
                 match self.sched {
